@@ -28,6 +28,12 @@ def _compute(tier, seed):
             raise MachineryError('as-found variant refuted on %s' % e.res.violated)
     from . import replay_filterposterior
     recs = r.records
+    if tier == 'quick':
+        # two observables (single sub-models, no covariates): the (output, time) axes of the chain rule through the
+        # mechanistic model only differ from each other with >= 2 observables and >= 2 times
+        r2 = tlc.run('FilterPosterior', 'FilterPosterior_quick2.cfg')
+        seen = {json.dumps(x, sort_keys=True) for x in recs}
+        recs = recs + [x for x in r2.records if json.dumps(x, sort_keys=True) not in seen]
     if tier == 'thorough':
         recs = [x for i, x in enumerate(recs) if len(x['subs']) < 3 or i % 5 == seed % 5]
     results = pmap(replay_filterposterior.replay_case, [(rec, seed) for rec in recs])
